@@ -326,6 +326,16 @@ def build(tier, rnd):
                     c['mutate'] = rate_fault
                     scs.append(mk(c, skip_rate=False))
                     meta.append((name, 'rate-check/%s-banners/%s' % (which, fname), (last_probe + 1, 'banner'), cfg, False))
+        # ... and under -M (the policy is written from whatever the probes managed to measure - a key that was never presented included)
+        if role == 'server' and cfg.get('ssh1') is None:
+            for (n, idx, kind, data) in pts:
+                if kind not in ('kexreply', 'gexgroup', 'gexreply') or n > 6:
+                    continue
+                for fname, fn in (('eof', f_eof), ('stall', f_stall), ('trunc@9+eof', f_trunc(9, fakenet.EOF)), ('type=1', f_patch(5, bytes([1])))):
+                    c = Cfg(cfg)
+                    c['mutate'] = mk_mutator(n, idx, fn)
+                    scs.append(scenario(c, skip_rate=True, extra_args=list(xargs) + ['-M', '{tmp}/made-policy.txt'], role=role))
+                    meta.append((name, 'conn%d/%s#%d/%s/make-policy' % (n, kind, idx, fname), (n, kind), cfg, True))
         # the same probe-phase faults under a policy audit: the policy is evaluated on whatever the probes managed to measure
         if role == 'server' and cfg.get('gex') and cfg.get('ssh1') is None:
             for (n, idx, kind, data) in pts:
